@@ -3,6 +3,7 @@ CONSTANTS
   Regions = {1, 2}
   Handles = {1, 2, 3, 4}
   MaxAbs = 1
+  WithShrink = FALSE
   WithStreams = FALSE
   WithNested = FALSE
   GenDepth = 99
